@@ -35,6 +35,9 @@ func (l *simLogger) Trace(m string) {
 	}
 }
 func (l *simLogger) Error(m string) {
+	if echoLines {
+		l.s.obs("gwerr", m)
+	}
 	l.s.mu.Lock()
 	l.s.errLog = append(l.s.errLog, l.s.canonLocked(m))
 	l.s.Stats["gateway_error_log_lines"]++
